@@ -77,6 +77,8 @@ type Step struct {
 	Cut      int    `json:"cut"`      // >0: deliver only the first Cut bytes of the encoded pipeline
 	CutAll   bool   `json:"cutall"`   // expand into one scenario per cut offset 1..total
 	WFailAt  int    `json:"wfailat"`  // op=wfail: writes fail once this many bytes were written
+	Name     string `json:"name"`     // op=register: the command name the application executor is registered under
+	Tag      string `json:"tag"`      // op=register: what the executor records as its method and replies ("R:"+tag)
 }
 
 type Scenario struct {
@@ -118,6 +120,8 @@ type runner struct {
 	timeout time.Duration
 	gmu     sync.Mutex
 	g2c     map[int64]int
+
+	customExec func(tag string) redis.Executor
 }
 
 func (rn *runner) curConn() int {
@@ -160,24 +164,25 @@ func (rn *runner) newServer(s Scenario, conns []*connRun) (*redis.Server, any) {
 	if s.RequirePass != "" {
 		server.SetRequirePass(symBytes[s.RequirePass])
 	}
-	if s.CustomExec {
-		exec := func(tag string) redis.Executor {
-			return func(conn *redis.Conn, cmd string, args redis.Arguments) (*redis.Message, error) {
-				rest := []string{}
-				for {
-					a, err := args.NextString()
-					if err != nil {
-						break
-					}
-					rest = append(rest, a)
+	exec := func(tag string) redis.Executor {
+		return func(conn *redis.Conn, cmd string, args redis.Arguments) (*redis.Message, error) {
+			rest := []string{}
+			for {
+				a, err := args.NextString()
+				if err != nil {
+					break
 				}
-				rn.rec.Emit(Ev{"ev": "call", "c": connID(conn), "m": tag, "a": A(L(rest)), "opt": Ev{"none": true}, "db": conn.Database(),
-					"auth": conn.IsAuthrized(), "inreg": true, "ud": "", "lag_ms": 0})
-				res := result{kind: "val", v: Val{T: "bulk", P: []byte("R:" + tag)}}
-				rn.rec.Emit(Ev{"ev": "callret", "c": connID(conn), "m": tag, "res": res.json()})
-				return res.ret()
+				rest = append(rest, a)
 			}
+			rn.rec.Emit(Ev{"ev": "call", "c": connID(conn), "m": tag, "a": A(L(rest)), "opt": Ev{"none": true}, "db": conn.Database(),
+				"auth": conn.IsAuthrized(), "inreg": true, "ud": "", "lag_ms": 0})
+			res := result{kind: "val", v: Val{T: "bulk", P: []byte("R:" + tag)}}
+			rn.rec.Emit(Ev{"ev": "callret", "c": connID(conn), "m": tag, "res": res.json()})
+			return res.ret()
 		}
+	}
+	rn.customExec = exec // scenarios of one runner run one after the other
+	if s.CustomExec {
 		server.RegisterExexutor("MYCMD", exec("MyCmd"))
 	}
 	// Start with both ports disabled only registers the password authenticator
@@ -412,6 +417,14 @@ func (rn *runner) run(s Scenario) bool {
 				args[0] = Tok{K: "int", N: cur}
 				req.Args = args
 			}
+		case "register":
+			// the application registers an executor while connections are open (and idle: no request is in flight)
+			tag := st.Tag
+			if tag == "" {
+				tag = "MyCmd"
+			}
+			server.RegisterExexutor(st.Name, rn.customExec(tag))
+			rn.rec.Emit(Ev{"ev": "register", "c": st.C, "name": strings.ToUpper(st.Name), "tag": tag})
 		case "sleep":
 			// a pause of At ms; the reference store's clock advances by exactly that much (its expiry is virtual-time,
 			// like the model's), the example store sees real time
